@@ -75,6 +75,11 @@ def oas(cov: np.ndarray, n: float, D: int) -> np.ndarray:
     tr = np.trace(cov)
     tr2 = tr**2
     tr_cov2 = np.trace(cov**2)
-    phi = ((1 - 2 / D) * tr_cov2 + tr2) / ((n + 1 - 2 / D) * tr_cov2 - tr2 / D)
+    numerator = (1 - 2 / D) * tr_cov2 + tr2
+    denominator = (n + 1 - 2 / D) * tr_cov2 - tr2 / D
+    # the shrinkage intensity is a convex weight: for very small effective sample sizes
+    # the raw estimate exceeds one (or its denominator vanishes), which means full
+    # shrinkage towards the isotropic target
+    phi = 1.0 if denominator <= 0 else min(1.0, max(0.0, numerator / denominator))
 
     return (1 - phi) * cov + phi * np.eye(D) * tr / D
